@@ -278,10 +278,14 @@ class Session(object):
         self.do("co new %d batch %s" % (self.co_n, self.batch_arg(data, pool)))
         a = "yield"
         limit = r.randint(1, 4) if r.random() < self.p.get("abandon_batch", 0.0) else 400   # the caller drops the generator half-way
+        inter = self.p.get("co_interleave", 0.0)
+        cur = self.co_n
         for _ in range(limit):
-            a = self.do("co step %d" % self.co_n)
+            a = self.do("co step %d" % cur)
             if a != "yield":
                 break
+            if inter and r.random() < inter:            # another request of the same client while the batch is suspended
+                getattr(self, "w_" + r.choice(["addlinks", "addlinks", "batch", "addpage"]))()
         if self.backend == "file" and self.p.get("w", {}).get("reopen", 1) > 0 and r.random() < 0.6:
             self.w_reopen()
             self.w_create()
@@ -447,6 +451,40 @@ class Session(object):
         self.q("pagesiter")          # the traversal order the oracle needs ("in some order")
         return self.do("addrule %s %s" % (hx(a), self.r.choice(RULE_NAMES[1:])))
 
+    def w_reinstall(self):
+        """a client pushing its rule set again: a rule already in force is installed a second time (same anchor, same
+        pattern), after a webentity lying below its anchor has been deleted: the pages there are evaluated again"""
+        r = self.r
+        from .impl import RULES
+        inv = {v: k for k, v in RULES.items()}
+        rt = [(a, inv.get(getattr(rx, "pattern", None))) for a, rx in self.rule_table().items()]
+        rt = [(a, n) for a, n in rt if n]
+        if not rt:
+            site = self.new_lru()
+            st = stems_of(site)
+            a = b"".join(st[: max(1, len(st) - 2)])
+            name = r.choice(["path1", "path2", "subdomain"])
+            self.do("addrule %s %s" % (hx(a), name))
+            page = site + r.choice([b"", b"p:k|"])
+            self.note(page); self.pages.append(page)
+            self.do("addpage %s 1" % hx(page))
+        else:
+            a, name = r.choice(rt)
+        m = self.we_map()
+        below = [(w, ps) for w, ps in m.items() if isinstance(w, int) and all(isinstance(p, bytes) for p in ps)
+                 and any(p.startswith(a) and len(p) > len(a) for p in ps)]
+        if below:
+            w, ps = r.choice(sorted(below))
+            self.do("delete %d %s" % (w, brack([hx(p) for p in ps])))
+            under = ps[0] + r.choice([b"", b"p:zz|"])
+            self.q("retrievewe " + hx(under))
+        self.q("pagesiter")
+        res = self.do("addrule %s %s" % (hx(a), name))
+        if below:
+            self.q("retrievewe " + hx(under)); self.q("retrieveprefix " + hx(under))
+        self.q("prefixiter")
+        return res
+
     def w_nestedrules(self):
         """two rules on nested anchors of a site nobody has visited yet, the deeper one proposing the longer prefix; then the
         first pages below both"""
@@ -526,7 +564,8 @@ class Session(object):
             self.pages = []
             return r
         if x < 0.6:
-            d = self.r.choice(RULE_NAMES); self.dflt = d
+            d = "never" if (self.dflt != "never" and self.r.random() < 0.3) else self.r.choice(RULE_NAMES)
+            self.dflt = d
             r = self.do("clear %s %s" % (d, self.rules_arg()))
         elif x < 0.8:
             r = self.do("clear - []")
@@ -663,7 +702,7 @@ class Session(object):
         self.do("hash")
 
     WRITES = ["addpage", "addpages", "addlinks", "batch", "create", "delete", "addprefix", "rmprefix", "moveprefix",
-              "addrule", "rmrule", "reopen", "clear", "cobatch", "deleteu", "addruleram", "chain", "nestedrules"]
+              "addrule", "rmrule", "reopen", "clear", "cobatch", "deleteu", "addruleram", "chain", "nestedrules", "reinstall"]
     READS = ["resolution", "pages", "paginate", "paginatelinks", "mostlinked", "hierarchy", "welinks", "pagelinks",
              "network", "global", "linksiter", "locate", "metrics", "helpers", "hierarchy_all"]
 
@@ -684,4 +723,4 @@ class Session(object):
 
 DEFAULT_W = {"addpage": 6, "addpages": 2, "addlinks": 4, "batch": 3, "create": 3, "delete": 1.2, "addprefix": 1.5,
              "rmprefix": 1, "moveprefix": 0.8, "addrule": 1.5, "rmrule": 0.5, "reopen": 0.8, "clear": 0.25, "cobatch": 0.5,
-             "deleteu": 0.5, "addruleram": 0.4, "chain": 0.06, "nestedrules": 0.15}
+             "deleteu": 0.5, "addruleram": 0.4, "chain": 0.06, "nestedrules": 0.15, "reinstall": 0.1}
